@@ -316,6 +316,8 @@ class Machine(object):
         if r < 0.87:
             return {"kind": "boundary_dsagen", "value": rng.choice(["0", "1", "q-3", "q-2", "q-1", "q-1", "q", "q+1", "ff"]),
                     "back": rng.choice([1, 2, 2, 3, 3]), "seed": rng.randrange(1 << 30), "ops": []}
+        if r < 0.875:
+            return {"kind": "mr_rounds", "n": rng.choice([91, 65, 85, 133, 217, 247, 121, 231, 249]), "k": rng.choice([2, 2, 3]), "seed": rng.randrange(1 << 30), "ops": []}
         if r < 0.88:
             return {"kind": "rsagen_size", "bits": rng.choice([1025, 1027, 1031, 1033, 1024, 1026]), "seed": rng.randrange(1 << 30), "ops": []}
         if r < 0.93:
@@ -610,6 +612,44 @@ class Machine(object):
         if y != pow(g, x, p_):
             ctx.violate("entropy/DSA.generate/inconsistent", "DSA.generate produced y != g^x mod p", observed=hex(y)[:40], expected="g^x mod p")
 
+    def run_mr_rounds(self, case, ctx):
+        """The bases of successive Miller-Rabin rounds are separate draws from the tape: for a small composite n (one byte
+        per draw) the verdict of k rounds on the tape (b1, .., bk) is 'probably prime' exactly when every b_i alone (one
+        round on the tape (b_i)) says so, and k accepted draws consume k bytes."""
+        from Crypto.Math.Primality import miller_rabin_test
+        n, k = case["n"], case["k"]
+        ctx.state(("mr_rounds", n, k))
+        ctx.fault("rng.tape", 256)
+        one = {}
+        for b in range(256):
+            t = Tape(bytes([b]))
+            try:
+                one[b] = int(miller_rabin_test(n, 1, randfunc=t))
+            except TapeExhausted:
+                one[b] = None              # this byte is rejected by the sampler (a retry would follow)
+        liars = [b for b, v in one.items() if v == 1]
+        comps = [b for b, v in one.items() if v == 0]
+        ctx.obs(n, len(liars), len(comps))
+        if not liars or not comps:
+            return
+        rng_ = __import__("random").Random(case["seed"])
+        for _ in range(300):
+            tape = [rng_.choice(liars) if rng_.random() < 0.75 else rng_.choice(comps) for _ in range(k)]
+            t = Tape(bytes(tape))
+            try:
+                got = int(miller_rabin_test(n, k, randfunc=t))
+            except TapeExhausted:
+                ctx.violate("entropy/miller_rabin_test/reads-more-than-one-draw-per-round", "%d rounds on %d accepted draws asked for more entropy" % (k, k),
+                            observed="tape exhausted", expected="verdict")
+            exp = 1 if all(one[b] == 1 for b in tape) else 0
+            first_comp = next((i for i, b in enumerate(tape) if one[b] == 0), k - 1)
+            if got != exp or (exp == 1 and t.pos != k) or (exp == 0 and t.pos != first_comp + 1):
+                ctx.violate("entropy/miller_rabin_test/rounds-not-separate-draws",
+                            "miller_rabin_test(%d, %d) on the tape %s gave %s after reading %d byte(s); each byte alone gives %s: the rounds do "
+                            "not use separate draws from the tape" % (n, k, tape, got, t.pos, [one[b] for b in tape]),
+                            observed=(got, t.pos), expected=(exp, k if exp else first_comp + 1))
+        ctx.probe("mr_rounds_compared")
+
     def run_rsagen_size(self, case, ctx):
         """The modulus has exactly the requested number of bits (odd sizes: p is one bit longer than q and has its own
         lower bound) and the key is a function of the tape."""
@@ -760,13 +800,36 @@ class Machine(object):
         else:
             blk = {"zero": bytes(1), "ff": b"\xff", "period": data(case["seed"], 5)}[kind]
             entropy.set_tape(blk * 40000)
+        # a spy on the integer sampler: what is drawn while signing / decrypting (nonces, blinding factors) lies in the
+        # documented interval of that operation - [1, q-1] resp. [1, order-1] for (EC)DSA, [1, n-1] for RSA
+        from Crypto.Math._IntegerBase import IntegerBase
+        orig = IntegerBase.__dict__["random_range"]
+        drawn = []
+
+        def spy(cls, **kw):
+            r = orig.__func__(cls, **kw)
+            drawn.append(int(r))
+            return r
+        IntegerBase.random_range = classmethod(spy)
         try:
             try:
                 self._global_op(what, case, ctx)
             except TapeExhausted:
                 ctx.probe("dead_rng_detected")
         finally:
+            IntegerBase.random_range = orig
             entropy.reset_stream(0)
+        bound = {"rsa_decrypt": int(self.rsa.n), "rsa_pss": int(self.rsa.n), "dsa_sign": int(self.dsa.q)}.get(what)
+        if bound is None:
+            bound = self._keys("p256")[1]
+        if drawn:
+            ctx.probe("sampler_spied")
+        for v in drawn:
+            if not (1 <= v <= bound - 1):
+                ctx.violate("entropy/%s/drawn-value-out-of-range" % what,
+                            "a value drawn from the integer sampler during %s lies outside the documented interval [1, %s-1] of its nonces and "
+                            "blinding factors" % (what, "n" if what.startswith("rsa") else "q"),
+                            observed="%d bits" % v.bit_length(), expected="at most %d bits, below the bound" % bound.bit_length())
 
     def _global_op(self, what, case, ctx):
         from Crypto.Hash import SHA256
